@@ -44,12 +44,28 @@ def gen_budget(H, depth=0):
     if k == "evals":
         return ["evals", 1 + H.draw(60)]
     if k == "target":
-        return ["target", float(H.pick([3, 7, 50, 1000, 10**5, 10**7]))]
+        return ["target", float(H.pick([3, 7, 50, 1000, 10**5, 10**7, 0, -5]))]
     return ["time", H.pick([0.001, 0.05, 0.5, 2.0])]
 
 
 def has_kind(b, k):
     return b[0] == k or (b[0] == "any" and (has_kind(b[1], k) or has_kind(b[2], k)))
+
+
+def discards_evaluated(desc):
+    """does the step evaluate individuals it may then drop (a selecting step placed after a creating one in a sequence)?
+    Such individuals never reach the tracker, so 'best fitness' can only mean the tracker's best there."""
+    if desc[0] == "sequence":
+        created = False
+        for d in desc[1]:
+            kinds = set(step_kinds(d))
+            if created and kinds & {"tournament", "elitism", "lexicase"}:
+                return True
+            if kinds & {"novelty", "mutation", "crossover"}:
+                created = True
+    if desc[0] in ("sequence", "parallel", "exclusive"):
+        return any(discards_evaluated(d) for d in desc[1])
+    return False
 
 
 def judge_return(ctx, st, algo, bdesc, batch, tracker, stratum, step_desc, which):
@@ -92,6 +108,7 @@ def run(ctx):
         kinds = set(step_kinds(step_desc))
         if not (kinds & {"novelty", "mutation", "crossover"}):
             stratum = "starving"
+    model_ok = step_desc is None or not discards_evaluated(step_desc)
     # landscape: values are multiples of 1.0; the target is hit exactly at a seeded invocation or never
     hit_at = H.draw(80) if H.draw(2) else None
     targets = []
@@ -108,6 +125,7 @@ def run(ctx):
     clock = SimClock(ctx, read_costs=(0, 1000, 250_000, 3_000_000, 40_000_000), jump_den=(7 if H.draw(3) == 0 else 0))
     st = World()
     st.invocations = 0
+    st.model_best = None
     st.steps = 0
     st.done_at = None  # invocation count when the top-level budget first answered True
     st.checks = 0
@@ -133,14 +151,20 @@ def run(ctx):
         if st.done_at is not None:
             ctx.violate(f"C14/evaluation-after-budget-met/{algo}", f"fitness invoked (#{i + 1}) after the budget check had answered True at {st.done_at} invocations")
         if hit_value is not None and i == hit_at:
-            return hit_value
-        # never within 1 of any target
-        v = float(2 * (i % 11) + 100)
-        big = [t for t in targets if t >= 10**4]
-        if big and i % 3 == 1:
-            v = big[i % len(big)] + (1.0 if i % 2 else -1.5)  # a near miss, in absolute terms, on a large target
-        while any(abs(v - t) < 1 for t in targets):
-            v += 2.0
+            v = hit_value
+        else:
+            # never within 1 of any target; on the worse side of the value that hits (so that the hit becomes the best)
+            off = float(2 * (i % 11) + 100)
+            worse = 1.0 if (minimize or hit_value is None) else -1.0
+            v = off if hit_value is None else hit_value + worse * off
+            big = [t for t in targets if t >= 10**4]
+            if big and i % 3 == 1:
+                v = big[i % len(big)] + (1.0 if i % 2 else -1.5)  # a near miss, in absolute terms, on a large target
+            while any(abs(v - t) < 1 for t in targets):
+                v += 2.0 * worse
+        # the model's best fitness: every individual these algorithms evaluate is handed to the tracker at once
+        if st.model_best is None or (v < st.model_best if minimize else v > st.model_best):
+            st.model_best = v
         return v
 
     problem = SingleObjectiveProblem(ff, minimize=minimize)
@@ -171,9 +195,14 @@ def run(ctx):
                     ctx.violate(f"C14/answer/evals/{'early' if ans else 'late'}", f"EvaluationBudget({d[1]}).is_done answered {ans} with {evals} evaluations")
             elif d[0] == "target":
                 best = tracker.get_best_individual()
-                hit = best is not None and best.get_fitness(problem).fitness_components[0] == d[1]
+                if model_ok:
+                    hit = st.model_best is not None and abs(st.model_best - d[1]) < 1e-4
+                else:
+                    hit = best is not None and best.get_fitness(problem).fitness_components[0] == d[1]
                 if bool(ans) != hit:
-                    ctx.violate(f"C14/answer/target/{'early' if ans else 'late'}", f"TargetFitness({d[1]}).is_done answered {ans}; best={None if best is None else best.get_fitness(problem).fitness_components}")
+                    ctx.violate(f"C14/answer/target/{'early' if ans else 'late'}",
+                                f"TargetFitness({d[1]}).is_done answered {ans}; best fitness evaluated so far {st.model_best} (minimise={minimize}), "
+                                f"tracker's best={None if best is None else best.get_fitness(problem).fitness_components}")
             elif d[0] == "time":
                 pass  # judged by the clock window below
             if self.top:
@@ -239,6 +268,8 @@ def run(ctx):
     returned = False
     reuse = H.draw(3) == 2  # F13: the same budget object drives a second search in the same process
     default_evaluator = bool(H.draw(2))  # the tracker is built without naming an evaluator (library default)
+    eval_in_pipeline = algo == "gp" and stratum == "normal" and H.draw(3) == 0
+    ctx.sample["evaluate_step_last"] = eval_in_pipeline
     with installed_clock(clock):
         top = build(bdesc, top=True)
         for attempt in range(2 if reuse else 1):
@@ -248,6 +279,7 @@ def run(ctx):
                 ctx.faults["carry_over"] += 1
                 # fresh search state, same budget instance
                 st.invocations = 0
+                st.model_best = None
                 st.done_at = None
                 st.checks = 0
                 st.log = []
@@ -262,6 +294,13 @@ def run(ctx):
                 kw["population_size"] = pop
                 if step_desc is not None:
                     kw["step"] = build_step(step_desc)
+                if eval_in_pipeline:
+                    # the offspring are evaluated inside the step (EvaluateStep last), before the population registers them
+                    from geneticengine.algorithms.gp.gp import default_generic_programming_step
+                    from geneticengine.algorithms.gp.operators.combinators import SequenceStep
+                    from geneticengine.algorithms.gp.operators.evaluation import EvaluateStep
+
+                    kw["step"] = SequenceStep(kw.get("step") or default_generic_programming_step(), EvaluateStep())
             cls = {"rs": RandomSearch, "opo": OnePlusOne, "hc": HC, "gp": GeneticProgramming}[algo]
             try:
                 a = cls(problem=problem, budget=top, representation=rep, random=rnd, tracker=tracker, **kw)
